@@ -512,8 +512,11 @@ def finish(ctx):
         "wall_s": round(ctx.elapsed(), 2),
         "violations": violations,
     }
-    os.makedirs(os.path.join(VERIF, "evidence"), exist_ok=True)
-    with open(os.path.join(VERIF, "evidence", ctx.pid + ".json"), "w") as f:
+    # runs against another copy of the repository (seeded-change tooling) must not
+    # overwrite the evidence of the registered checks
+    evdir = os.path.join(VERIF, "evidence") if os.path.realpath(REPO) == "/repo" else os.path.join(VERIF, "evidence", "other-repo")
+    os.makedirs(evdir, exist_ok=True)
+    with open(os.path.join(evdir, ctx.pid + ".json"), "w") as f:
         json.dump(ev, f, indent=1, default=repr)
     for l in lines:
         print(l)
